@@ -81,6 +81,7 @@ def canon_term(t):
 class Gen:
     def __init__(self, rnd):
         self.r = rnd
+        self.clean = False      # clean mode: only shapes the rewriter accepts and gets right
 
     def num(self, d=0):
         r = self.r
@@ -95,11 +96,11 @@ class Gen:
             return f"({self.num(d + 1)} if {self.cond(d + 1)} else {self.num(d + 1)})"
         if c < 0.85:
             return f"-{self.num(d + 1)}"
-        if c < 0.9:
+        if c < 0.9 and not self.clean:
             return f"{r.choice(['max', 'min'])}({self.num(d + 1)}, {self.num(d + 1)}, {self.num(d + 1)})"  # rejected
-        if c < 0.95:
+        if c < 0.95 or self.clean:
             return f"abs({self.num(d + 1)})"
-        return f"float({self.num(d + 1)})"
+        return f"float({self.num(d + 1)})"      # loud when called on arrays
 
     def cond(self, d=0):
         r = self.r
@@ -112,9 +113,11 @@ class Gen:
             return f"({self.cond(d + 1)} and {self.cond(d + 1)} and {self.cond(d + 1)})"
         if c < 0.8:
             return f"(not {self.cond(d + 1)})"
-        if c < 0.9:
-            return f"({self.num(d + 1)} < {self.num(d + 1)} <= {self.num(d + 1)})"
-        return f"(n in [1, 2, 3])"
+        if c < 0.9 and not self.clean:
+            return f"({self.num(d + 1)} < {self.num(d + 1)} <= {self.num(d + 1)})"      # loud when called on arrays
+        if c < 0.9 or self.clean:
+            return f"({self.num(d + 1)} {r.choice(['<', '>='])} {self.num(d + 1)})"
+        return f"(n in [1, 2, 3])"      # loud when called on arrays
 
     def block(self, kind, var, d):
         """statements that leave `var` assigned or return"""
@@ -125,10 +128,22 @@ class Gen:
             if kind == "ret":
                 return f"{ind}return {self.num()}\n"
             return f"{ind}{var} = {self.num()}\n"
-        if c < 0.85:
-            out = f"{ind}if {self.cond()}:\n{self.block(kind, var, d + 1)}"
-            for _ in range(r.choice([0, 0, 1, 2])):
-                out += f"{ind}elif {self.cond()}:\n{self.block(kind, var, d + 1)}"
+        if c < 0.85 or self.clean:
+            # chains of up to seven conditions; "ladders" test one variable against several thresholds, so that the
+            # conditions OVERLAP and only first-match order gives the right branch (statutory brackets are written so)
+            n_elif = r.choice([0, 0, 1, 2, 2, 3, 4, 6])
+            if r.random() < 0.4:
+                v = r.choice(["x", "y", "n"])
+                op = r.choice(["<", "<=", ">", ">="])
+                ths = [r.choice([-2, 0, 1, 2, 3, 5, 10]) for _ in range(n_elif + 1)]
+                if r.random() < 0.7:
+                    ths = sorted(ths, reverse=op in (">", ">="))
+                conds = [f"{v} {op} {t}" for t in ths]
+            else:
+                conds = [self.cond() for _ in range(n_elif + 1)]
+            out = f"{ind}if {conds[0]}:\n{self.block(kind, var, d + 1)}"
+            for cnd in conds[1:]:
+                out += f"{ind}elif {cnd}:\n{self.block(kind, var, d + 2 if n_elif > 2 else d + 1)}"
             out += f"{ind}else:\n{self.block(kind, var, d + 1)}"
             return out
         # shapes the rewriter rejects or gets wrong
@@ -147,6 +162,7 @@ class Gen:
 
     def function(self, name):
         r = self.r
+        self.clean = r.random() < 0.65
         head = f"def {name}(x: float, y: float, n: int, flag: bool, other: bool, p: dict) -> float:\n"
         if r.random() < 0.4:
             return head + self.block("ret", "out", 0)
@@ -480,16 +496,16 @@ def run(tier: str) -> int:
         except Exception as ex:  # noqa: BLE001
             r.broke("correspondence", f"cannot load rule {e['fname']}", str(ex))
     transformer_correspondence(r, "_make_vectorizable_ast vs Vectorize.transform on all rule functions", pairs)
-    funs, tmpd = toy_module(rnd, 150 if quick else 3000)
+    funs, tmpd = toy_module(rnd, 400 if quick else 4000)
     transformer_correspondence(r, "_make_vectorizable_ast vs Vectorize.transform on random programs", funs)
     arrsem_correspondence(r, rnd, funs)
     fragment_obligations(r)
     # the property on random programs through the real rewriter
     outcomes = {}
     for func, fd in funs:
-        rows = [{"x": rnd.choice([0.0, 1.0, -2.5, 10.0, 3.0]), "y": rnd.choice([0.0, 2.0, 0.5, -1.0]),
-                 "n": rnd.choice([0, 1, 2, 3]), "flag": rnd.random() < 0.5, "other": rnd.random() < 0.5}
-                for _ in range(6)]
+        rows = [{"x": rnd.choice([0.0, 1.0, -2.5, 10.0, 3.0, 2.5, 7.0, -3.0]), "y": rnd.choice([0.0, 2.0, 0.5, -1.0, 4.0, 12.0]),
+                 "n": rnd.choice([0, 1, 2, 3, 4, 7]), "flag": rnd.random() < 0.5, "other": rnd.random() < 0.5}
+                for _ in range(12)]
         res = array_vs_scalar(r, func, ruleir.strip_docstrings(fd), rows, ["x", "y", "n", "flag", "other"],
                               {"p": {"a": 2.5, "t": {1: 4.0, 2: 8.0}}}, "random program", keyname="random-program")
         outcomes[res] = outcomes.get(res, 0) + 1
